@@ -15,10 +15,18 @@
 // net.Listener whose address is local= and whose Accept() fails twice with a temporary error
 // (EMFILE), then with a permanent one (EINVAL), then with net.ErrClosed for ever.
 //
+// client paths setup-proxy-<socks5|socks4a|http>[-user|-userpass]: the real clientSetup() (hence
+// pt.ClientSetup and ptGetProxy) with TOR_PT_PROXY=<scheme>://[user=[:pass=]@]errip:1080 and
+// TOR_PT_CLIENT_TRANSPORTS=obfs3 set in the environment for the call (restored afterwards; the
+// PT protocol lines go to a discarded pt.Stdout; the listeners are closed again).  server path
+// setup-bind: the real serverSetup() with TOR_PT_SERVER_BINDADDR=obfs3-errip:0 (errip= must be
+// a loopback address).  level=<INFO|DEBUG> selects the log level (default DEBUG).
+//
 // Nothing here runs unless the driver is active; no existing behaviour is changed.
 package main
 
 import (
+	"io"
 	"net"
 	"net/url"
 	"os"
@@ -29,12 +37,13 @@ import (
 
 	pt "gitlab.torproject.org/tpo/anti-censorship/pluggable-transports/goptlib"
 
+	"gitlab.com/yawning/obfs4.git/common/log"
 	"gitlab.com/yawning/obfs4.git/transports"
 )
 
 // verifLogExtraWho maps the paths of this file to the pseudo role "extra".
 func verifLogExtraWho(who, path string) string {
-	if strings.HasPrefix(path, "proxy-") || path == "accept-errors" {
+	if strings.HasPrefix(path, "proxy-") || path == "accept-errors" || strings.HasPrefix(path, "setup-") {
 		return "extra"
 	}
 	return who
@@ -61,7 +70,114 @@ func (l *verifScriptListener) Close() error   { return nil }
 func (l *verifScriptListener) Addr() net.Addr { return l.addr }
 
 // verifLogExtra returns the function to run for one of the extra paths, or an error reply.
+// verifWithEnv runs f with the given environment variables set ("" = unset) and pt.Stdout
+// discarded, and restores both.
+func verifWithEnv(env map[string]string, f func()) {
+	old := map[string]*string{}
+	for k, v := range env {
+		if o, ok := os.LookupEnv(k); ok {
+			o := o
+			old[k] = &o
+		} else {
+			old[k] = nil
+		}
+		if v == "" {
+			os.Unsetenv(k)
+		} else {
+			os.Setenv(k, v)
+		}
+	}
+	oldOut := pt.Stdout
+	pt.Stdout = io.Discard
+	defer func() {
+		pt.Stdout = oldOut
+		for k, o := range old {
+			if o == nil {
+				os.Unsetenv(k)
+			} else {
+				os.Setenv(k, *o)
+			}
+		}
+	}()
+	f()
+}
+
+func verifLogSetup(who, path string, kv map[string]string) (func(), string) {
+	ip := net.ParseIP(kv["errip"])
+	if ip == nil {
+		return nil, "bad-op"
+	}
+	if l := kv["level"]; l != "" {
+		if err := log.SetLogLevel(l); err != nil {
+			return nil, "bad-op"
+		}
+	}
+	if _, err := verifRealStateDir(); err != nil {
+		return nil, "error " + strings.ReplaceAll(err.Error(), " ", "_")
+	}
+	env := map[string]string{
+		"TOR_PT_MANAGED_TRANSPORT_VER": "1", "TOR_PT_STATE_LOCATION": verifRealDir,
+		"TOR_PT_CLIENT_TRANSPORTS": "", "TOR_PT_SERVER_TRANSPORTS": "", "TOR_PT_PROXY": "",
+		"TOR_PT_SERVER_BINDADDR": "", "TOR_PT_ORPORT": "", "TOR_PT_EXTENDED_SERVER_PORT": "",
+		"TOR_PT_AUTH_COOKIE_FILE": "", "TOR_PT_SERVER_TRANSPORT_OPTIONS": "",
+	}
+	closeAll := func(lns []net.Listener) {
+		for _, ln := range lns {
+			ln.Close()
+		}
+	}
+	w := strings.Split(path, "-")
+	switch {
+	case who == "client" && len(w) >= 3 && w[1] == "proxy":
+		u := &url.URL{Scheme: w[2], Host: net.JoinHostPort(ip.String(), "1080")}
+		switch {
+		case len(w) == 3:
+		case len(w) == 4 && w[3] == "user" && kv["user"] != "":
+			u.User = url.User(kv["user"])
+		case len(w) == 4 && w[3] == "userpass" && kv["user"] != "" && kv["pass"] != "":
+			u.User = url.UserPassword(kv["user"], kv["pass"])
+		default:
+			return nil, "bad-op"
+		}
+		// only combinations ptGetProxy accepts (anything else ends in golog.Fatal)
+		switch {
+		case w[2] == "http":
+		case w[2] == "socks4a" && (len(w) == 3 || w[3] == "user"):
+		case w[2] == "socks5" && (len(w) == 3 || w[3] == "userpass"):
+		default:
+			return nil, "bad-op"
+		}
+		env["TOR_PT_CLIENT_TRANSPORTS"] = "obfs3"
+		env["TOR_PT_PROXY"] = u.String()
+		return func() {
+			verifWithEnv(env, func() {
+				stateDir = verifRealDir
+				_, lns := clientSetup()
+				closeAll(lns)
+			})
+		}, ""
+	case who == "server" && path == "setup-bind":
+		if !ip.IsLoopback() {
+			return nil, "bad-op"
+		}
+		env["TOR_PT_SERVER_TRANSPORTS"] = "obfs3"
+		env["TOR_PT_SERVER_BINDADDR"] = "obfs3-" + net.JoinHostPort(ip.String(), "0")
+		env["TOR_PT_ORPORT"] = verifOrHoldPort().String()
+		return func() {
+			verifWithEnv(env, func() {
+				stateDir = verifRealDir
+				_, lns := serverSetup()
+				closeAll(lns)
+			})
+		}, ""
+	}
+	return nil, "bad-op"
+}
+
 func verifLogExtra(who, path string, kv map[string]string, local, peer net.Addr, localTCP *net.TCPAddr) (func(), string) {
+	if strings.HasPrefix(path, "setup-") {
+		return verifLogSetup(who, path, kv)
+	}
 	if path == "accept-errors" {
 		acceptErr := func(errno syscall.Errno) error {
 			return &net.OpError{Op: "accept", Net: "tcp", Addr: localTCP, Err: os.NewSyscallError("accept4", errno)}
